@@ -253,6 +253,9 @@ func c06Pairs(r *RNG, n int) [][2][]byte {
 	for i := 0; i < n; i++ {
 		out = append(out, [2][]byte{[]byte(c06Tags[(perm+i)%len(c06Tags)]), genText(r)})
 	}
+	if r.Chance(20) {
+		out[r.Intn(n)][0] = []byte("-") // a value without a language among tagged ones
+	}
 	return out
 }
 
